@@ -193,7 +193,11 @@ def run(ctx):
         ctx.bucket("callback_data:" + data_kind)
         in_occ = [1, 0] * n
 
-        def experiment(circuits):
+        xa = None if rng.random() < 0.5 else [None, [], [3], ["shots", {"a": 1}], [None], [0, 0.5, "x"]][int(rng.integers(6))]
+        xa_seen: list = []
+
+        def experiment(circuits, *extra):
+            xa_seen.append(list(extra))
             out = []
             for c in circuits:
                 ctx.count("callback_circuits_checked")
@@ -245,7 +249,12 @@ def run(ctx):
                     res_ = _g(circuits, *a, **k)
                     seen["settings"].clear(); seen["data"].clear(); seen["problems"].clear()
                     return res_[:-1] if armed["how"] == "too_few_results" else [{} for _ in res_]
-            st = tomo.StateTomography(n, base, cb)
+            if xa is None and rng.random() < 0.7:
+                st = tomo.StateTomography(n, base, cb)
+            else:
+                ctx.bucket("experiment_args_given")
+                st = tomo.StateTomography(n, base, cb, xa) if rng.random() < 0.5 else \
+                    tomo.StateTomography(n, base, cb, experiment_args=xa)
             if armed["on"]:
                 try:
                     st.process()
@@ -255,7 +264,12 @@ def run(ctx):
                     ctx.count("failed_first_run:" + armed["how"] + ":" + type(e_).__name__)
                 armed["on"] = False
                 seen["settings"].clear(); seen["data"].clear(); seen["problems"].clear()
+            xa_seen.clear()
             rho = st.process()
+            ctx.count("experiment_args_checked")
+            if not xa_seen or any(x != list(xa or []) for x in xa_seen):
+                ctx.violation(f"the experiment was called with extra arguments {xa_seen[:2]}, experiment_args was {xa!r}",
+                              case=case, mechanism="experiment_args_not_passed_on", monitor="experiment callback")
             fid = st.fidelity(rho_exp)
         except Exception as e:  # noqa: BLE001
             ctx.violation(f"StateTomography raised {type(e).__name__}: {e}", case=case,
